@@ -50,12 +50,18 @@ def main():
                       "patch": os.path.join(d, "patch.diff"), "expect": "detected",
                       "needs": m.get("needs_to_manifest")})
     rows = []
+    outp0 = os.path.join(VERIF, "sensitivity.json" if not seed or seed == "1" else "sensitivity_seed%s.json" % seed)
+    old_controls = {}
+    if no_control and os.path.exists(outp0):
+        # a re-run without the control keeps the control result measured before
+        old_controls = {r["id"]: r["other_property_quick"] for r in json.load(open(outp0))["rows"]}
     for it in items:
         if only and only not in it["id"]:
             continue
         other = "C14" if it["property"] == "C03" else "C03"
         r = run_check(it["patch"], it["property"], tier)
-        c = run_check(it["patch"], other, "quick") if not no_control else {"exit": -1, "wall_s": 0, "violations_reported": 0, "replays_reproduced": 0, "classes": []}
+        c = run_check(it["patch"], other, "quick") if not no_control else old_controls.get(
+            it["id"], {"exit": -1, "wall_s": 0, "violations_reported": 0, "replays_reproduced": 0, "classes": []})
         ok = (r["exit"] == 1) == (it["expect"] == "detected") and r["exit"] in (0, 1)
         rows.append({**it, "result": r, "other_property_quick": c, "as_expected": ok})
         print("%-48s %s %-8s exit=%d viol=%d repro=%d %s | %s quick exit=%d  %s" % (
